@@ -179,6 +179,9 @@ def evaluate(c, case, ns, fn, selfobj, args, ghosts=None, call=None):
         for oe in old_exprs(text):
             olds[oe] = _snapshot(eval(oe, dict(ns, **env)))
     call_args = dict(args)
+    from pyvc import native as _native
+    _native.PRE_IDS.clear()
+    _native.PRE_IDS.update(_native.reach_ids([selfobj] + list(args.values())))
     out['args'] = {k: repr(v)[:300] for k, v in call_args.items()}
     out['receiver'] = repr(selfobj)[:300]
     try:
